@@ -179,7 +179,7 @@ def run_cases(run, cases, exe, drv):
                 elif cur is not None:
                     r = results[cur]
                     r["lines"].append(line)
-                    for tag in ("load", "wf", "levels", "sets", "totals", "removal", "inserts", "check"):
+                    for tag in ("load", "wf", "levels", "sets", "totals", "removal", "merge", "inserts", "check"):
                         if line.startswith(tag + " "):
                             r[tag] = line
             if rc != 0 or rc2 != 0:
@@ -217,10 +217,10 @@ def judge(run, cases, results):
                 run.violation("correspondence:insert-by-cpuset:%s" % kind,
                               "model of hwloc___insert_object_by_cpuset (Topo/Insert.v) disagrees with the implementation on %s" % name,
                               script + "\n--- verdict\n" + r["inserts"][:2000], no_input=(r["wf"] or "").startswith("wf ok"))
-            elif r.get("sets") != "sets ok" or r.get("totals") != "totals ok" or r.get("removal") != "removal ok":
+            elif r.get("sets") != "sets ok" or r.get("totals") != "totals ok" or r.get("removal") != "removal ok" or r.get("merge") != "merge ok":
                 run.violation("correspondence:sets-pipeline:%s" % kind,
-                              "model of the set post-processing (root fix-up, propagate_nodeset, fixup_sets, remove_unused_sets, filter_bridges, remove_empty, propagate_total_memory) disagrees with the implementation on %s" % name,
-                              script + "\n--- verdict\n%s\n%s\n%s" % (r.get("sets"), r.get("totals"), r.get("removal")), no_input=(r["wf"] or "").startswith("wf ok"))
+                              "model of the set post-processing (root fix-up, propagate_nodeset, fixup_sets, remove_unused_sets, filter_bridges, remove_empty, KEEP_STRUCTURE merging, propagate_total_memory) disagrees with the implementation on %s" % name,
+                              script + "\n--- verdict\n%s\n%s\n%s" % (r.get("sets"), r.get("totals"), str(r.get("removal")) + " " + str(r.get("merge"))), no_input=(r["wf"] or "").startswith("wf ok"))
             elif (r["wf"] or "").startswith("wf ok"):
                 run.cov["traces_validated_against_impl"] += 1
                 m = re.match(r"inserts ok n=(\d+)", r.get("inserts") or "")
